@@ -55,8 +55,23 @@ fn check(ctx: &mut Ctx, pts: &[PT], sw: u32, sh: u32, dw: u32, dh: u32, cx: Crop
             combos.push((true, SrcK::TRef, DstK::TSlice));
             combos.push((true, SrcK::TCropNew, DstK::TSlice));
         }
-        for (typed, sk, dk) in combos {
+        for (ci, (typed, sk, dk)) in combos.into_iter().enumerate() {
             let mut rz = new_resizer(be);
+            if ci % 2 == 0 {
+                // start from a non-initial state: the same Resizer has just cut an equally sized tile
+                // one pixel further right/down (or left/up) out of the same image
+                let shift = |c: Crop1, n: u32| if c.start + 1.0 + c.len <= n as f64 { Some(Crop1 { start: c.start + 1.0, len: c.len }) } else if c.start >= 1.0 { Some(Crop1 { start: c.start - 1.0, len: c.len }) } else { None };
+                let (wx, wy) = (shift(cx, sw), shift(cy, sh));
+                if wx.is_some() || wy.is_some() {
+                    let mut ow = o;
+                    ow.cx = Some(wx.unwrap_or(cx));
+                    ow.cy = Some(wy.unwrap_or(cy));
+                    let mut warm = Raw::filled(pt, dw, dh, 0xA5);
+                    let _ = resize_into(&mut rz, &src, &mut warm, &ow);
+                    ctx.ops += 1;
+                    ctx.note("cases preceded by a warm-up call with a shifted crop box of the same size on the same Resizer", 1);
+                }
+            }
             let mut op = OpSpec::Resize(&mut rz, fo);
             let (out, _) = run_one(&mut op, typed, sk, dk, &src, pt, dw, dh, Place { l: 1, t: 2, mr: 0, mb: 0 }, Place::NONE, 3, Mem::FencedEnd, 0x5A);
             ctx.ops += 1;
@@ -189,7 +204,7 @@ pub fn prop(tier: Tier, _seed: u64) -> Prop {
         .isolated(),
     );
 
-    p.rule = "source sizes (1..S)^2 x one destination axis varying over 1..D (the other fixed) x the full CROP1 x CROP1 alphabet (integer, fractional, sub-pixel, flush-left and flush-right boxes down to a width of n*2^-52) with rotating pixel types; the full (w_in,h_in,w_out,h_out) product up to F^4 x CROP1^2 x all 13 pixel types; huge ratios (1<->4097, 65537->3) and long coprime pairs (1001->300, 997->512, 4099->1000, 300->1001, 1000->999, 65521->4093) on both axes. Source containers: ImageRef and CroppedImage (dynamic entry), TypedImageRef (specialised row stepping) and TypedCroppedImage (generic row stepping) through the typed entry; all buffers end at a guard page and each case runs in an isolated child. Oracle: every destination pixel is byte-identical to the source pixel at floor(left+(x+1/2)*cw/dw), floor(top+(y+1/2)*ch/dh); either neighbour when the coordinate is within (n_out+4)*2^-51*extent of an integer".into();
+    p.rule = "source sizes (1..S)^2 x one destination axis varying over 1..D (the other fixed) x the full CROP1 x CROP1 alphabet (integer, fractional, sub-pixel, flush-left and flush-right boxes down to a width of n*2^-52) with rotating pixel types; the full (w_in,h_in,w_out,h_out) product up to F^4 x CROP1^2 x all 13 pixel types; huge ratios (1<->4097, 65537->3) and long coprime pairs (1001->300, 997->512, 4099->1000, 300->1001, 1000->999, 65521->4093) on both axes. Source containers: ImageRef and CroppedImage (dynamic entry), TypedImageRef (specialised row stepping) and TypedCroppedImage (generic row stepping) through the typed entry; all buffers end at a guard page and each case runs in an isolated child; every other container run is preceded, on the same Resizer, by a Nearest call with the crop box shifted by one pixel (same size). Oracle: every destination pixel is byte-identical to the source pixel at floor(left+(x+1/2)*cw/dw), floor(top+(y+1/2)*ch/dh); either neighbour when the coordinate is within (n_out+4)*2^-51*extent of an integer".into();
     p.bounds = json!({"S": smax, "D": dmax, "F": full});
     p.assumptions = vec!["tags are unique byte patterns per pixel (for U8 at most 256 pixels), so a wrong source pixel is always visible".into()];
     p
